@@ -4,7 +4,7 @@ import json, os, time
 from common import *
 import tlcout
 
-CC_PROPS = ["C01", "C02", "C08", "C09", "C11", "C12", "C13"]
+CC_PROPS = ["C01", "C02", "C05", "C06", "C08", "C09", "C11", "C12", "C13", "C14"]
 
 TIERS = {
     # universe -> MaxEqs
